@@ -85,7 +85,7 @@ def gen_class(rnd, i):
     names = NAMES[: rnd.randint(1, 4)]
     fields = []
     for n in names:
-        fields.append({"name": n, "default": rnd.random() < 0.5, "alias": (n.upper() + "x" if rnd.random() < 0.25 else n)})
+        fields.append({"name": n, "default": rnd.random() < 0.5, "alias": (n.upper() + "x" if rnd.random() < 0.25 else n), "nullable": rnd.random() < 0.3})
     fields.sort(key=lambda f: f["default"])
     inherit = rnd.random() < 0.3          # fields and helpers in a base class, validators in the subclass
     cname = f"VB{i}" if inherit else f"V{i}"
@@ -95,7 +95,7 @@ def gen_class(rnd, i):
     for f in fields:
         md = f"metadata=alias({f['alias']!r})" if f["alias"] != f["name"] else ""
         rhs = (f" = field(default=0, {md})" if md else " = 0") if f["default"] else (f" = field({md})" if md else "")
-        lines.append(f"    {f['name']}: int{rhs}")
+        lines.append(f"    {f['name']}: {'Optional[int]' if f.get('nullable') else 'int'}{rhs}")
     if inherit:
         # helpers defined in the base class: a method and a property, each reading one field
         for n in names:
@@ -126,10 +126,11 @@ def gen_datum(rnd, c):
     """each field: absent / valid / valid-but-triggering (13) / invalid"""
     d, st = {}, {}
     for f in c["fields"]:
-        r = rnd.choice(["absent", "valid", "valid", "trigger", "invalid"])
+        r = rnd.choice(["absent", "valid", "valid", "trigger", "invalid"] + (["null", "null"] if f.get("nullable") else []))
         if r == "absent" and not f["default"]: r = rnd.choice(["absent", "valid", "trigger"])
         st[f["name"]] = r
         if r == "valid": d[f["alias"]] = 1
+        elif r == "null": d[f["alias"]] = None        # a value like another: the field is provided and valid
         elif r == "trigger": d[f["alias"]] = 13
         elif r == "invalid": d[f["alias"]] = "x"
     return d, st
@@ -140,10 +141,12 @@ def e2e_spec(c, st):
     errs, structural = [], False
     for f in c["fields"]:
         s = st[f["name"]]
-        if s == "invalid": errs.append([[f["alias"]], "expected type integer, found string"]); structural = True
+        if s == "invalid":
+            errs.append([[f["alias"]], "expected type integer, found string"]); structural = True
+            if f.get("nullable"): errs.append([[f["alias"]], "expected type null, found string"])
         elif s == "absent" and not f["default"]: errs.append([[f["alias"]], "missing property"]); structural = True
     bad = {f["name"] for f in c["fields"] if st[f["name"]] == "invalid" or (st[f["name"]] == "absent" and not f["default"])}
-    provided = {n for n, s in st.items() if s in ("valid", "trigger")}
+    provided = {n for n, s in st.items() if s in ("valid", "trigger", "null")}
     disc, ran = set(), []
     alias_of = {f["name"]: f["alias"] for f in c["fields"]}
     for v in c["validators"]:
@@ -156,7 +159,7 @@ def e2e_spec(c, st):
     return {"ran": ran, "errs": sorted(errs, key=json.dumps), "built": not errs}
 
 
-E2E_HEADER = ["from dataclasses import dataclass, field", "from typing import Generic, TypeVar", "from apischema import validator, ValidationError, alias", "LOG = []", "T = TypeVar('T')", ""]
+E2E_HEADER = ["from dataclasses import dataclass, field", "from typing import Generic, TypeVar, Optional", "from apischema import validator, ValidationError, alias", "LOG = []", "T = TypeVar('T')", ""]
 
 
 def _al(s): return "al_" + s
@@ -278,6 +281,23 @@ def e2e_locations(seed, budget):
                 failures.append({"part": "deserialize", "cls": c["cls"], "src": c["src"], "datum": d, "states": st, "real": r, "spec": s, "aliased": True, "generic": c.get("generic", False),
                                  "validators": c["validators"], "fields": c["fields"], "kind": "P", "k_ok": None,
                                  "why": ["error-location-is-not-the-aliased-path"]})
+    return failures, n, distinct
+
+
+def e2e_nocrash(seed, budget):
+    """C03 on classes with validators: every outcome is a value or a ValidationError (fields absent / valid / null / triggering / invalid)"""
+    rnd = random.Random(seed * 19 + 3); ncls = 60 * budget
+    classes = [gen_class(rnd, 700_000 + i) for i in range(ncls)]
+    mod = build_module(E2E_HEADER + [l for c in classes for l in c["src"] + [""]], f"valnc{seed}")
+    failures, n, distinct = [], 0, set()
+    for c in classes:
+        for _ in range(8):
+            d, st = gen_datum(rnd, c); n += 1
+            r = run_e2e(mod, c, d, rnd.random() < 0.3)
+            if len(c["validators"]) > 1: distinct.add(case_hash(c["src"], d))
+            if "crash" in r:
+                failures.append({"part": "deserialize", "cls": c["cls"], "src": c["src"], "datum": d, "states": st, "real": r, "spec": e2e_spec(c, st), "aliased": False, "generic": c.get("generic", False),
+                                 "validators": c["validators"], "fields": c["fields"], "kind": "P", "k_ok": None, "why": ["crash:" + r["crash"].split(":")[0]]})
     return failures, n, distinct
 
 
